@@ -87,6 +87,7 @@ def run(ctx):
     # R18.3
     ar.compat_checks_rule(ctx, 'R18.3')
     ar.index_normalisation_rule(ctx, 'R18.3b')
+    ar.mode_params_rule(ctx, 'R18.3c')
     _validate_early(ctx)
     _filter_validation(ctx)
     # refused metadata updates and refused merges must leave the target as it was (shared with C16 / C14)
